@@ -342,6 +342,11 @@ example : (minifyFont exFont).map lexemes = some "70012pxtimes new roman,serif".
     (minifyFont exFont).map (fun o => fontDen (o.flatMap Verif.Spec.CssValue.asWritten)) = some (fontDen exFont) ∧
     (fontDen exFont).isSome = true := by decide +kernel
 
+open Verif.Model.Css Verif.Model.CssShorthand Verif.Spec.CssShorthand Verif.Proofs.CssShorthand in
+example : fontGuard exFont = true ∧ (fontDen exFont).isSome = true ∧
+    fontGuard [tok .ident "italic", tok .number "400", tok .ident "medium", tok .delim "/", tok .number "1.5",
+      tok .ident "Small", tok .ident "caps", tok .comma ",", tok .string "'Segoe UI'"] = true := by decide +kernel
+
 /-- `url(x) 0 0/auto auto repeat repeat scroll padding-box border-box transparent` -/
 def exBg : List Tok :=
   [tok .url "url(x)", tok .number "0", tok .number "0", tok .delim "/", tok .ident "auto", tok .ident "auto",
